@@ -16,7 +16,21 @@ E  trees in the ESP-IDF idiom: IDF_TARGET (string, default from the environment)
                  "forced by" rows), are the default VALUE of another option and the VALUE of another option's `set`
      conds       `range .. if E`, `default .. if E`, `select T if E`, `set T=v if E` on options that have their own `depends on`
    plus fixed programs (excluded menu names, nested menus, multi-level breadcrumbs); targets chipa and chipb; a rename file
-   (deprecated section).
+   (deprecated section);
+   plus the SPECIAL MENU NAMES family: every name the generator never writes a section for (read from the EXCLUDE*/SKIP*/
+   IGNORE*/HIDDEN* string-list constants of gen_kconfig_doc, today EXCLUDED_MENU_NAMES, plus the two names the ESP-IDF build
+   generates) and near-miss names that are ordinary menus (lower-cased, with a suffix, a prefix of it), as the full product of
+     position  top level | in a visible menu | two menus deep | under a menuconfig | in an `if` inside a menu | in a menu that
+               depends on the target | in a menu with `visible if <capability>` | inside the OTHER special menu (nested and at
+               top level) | inside a menu of the SAME name
+     carrier   plain menu | menu `depends on <target>` | menu `depends on <user option>` | menu `visible if <user option>`
+     content   empty | documented options (one depending on the other) | options linked with the outside (select / set / default
+               value in both directions) | sub menu with options | sub menu two deep | choice | menuconfig with child | the other
+               special menu nested inside (with a menu below both) | target-/user-gated options
+     siblings  none | ordinary menu before | option + menu after | both | the other special menu as a sibling
+   (so every "Contains:" list, every "Found in:" breadcrumb of an option below a special menu, every link to / from an option
+   inside one, and every anchor composed from a special name is produced), and the special name as the prompt of something that
+   is NOT a menu (menuconfig, bool/int config, choice, comment) at every position.
    Driver: kconfgen.core.write_docs(kconfig, file) -- the function behind `kconfgen --output docs` -- with IDF_TARGET set.
 O  (a) every option/choice with a prompt that the real evaluator reports visible in SOME assignment of the user-settable
        options (fresh Kconfig per assignment, Symbol.set_value, .visibility) has its anchor `.. _CONFIG_<name>:` in the text;
@@ -24,6 +38,8 @@ O  (a) every option/choice with a prompt that the real evaluator reports visible
        for every assignment  value(condition) AND value(deps) == value(shown) AND value(deps)  with esp_kconfiglib.expr_value
        on a fresh instance (shown None == n: the generator states that the row never applies);
    (c) every :ref: target in the text is defined by a `.. _anchor:` in the same text.
+   In the special-name family (a) says that the options inside a special menu (and options that merely carry its name as their
+   prompt) are documented like any other, (c) that nothing links to the section that is never written.
    A violation of (a)/(b) is attributed to the smallest sub-expression whose folding by _minimize_expr changes its value in
    some assignment (operator, operand kinds, what it was folded to); if there is none the site of the condition is named.
 """
@@ -54,13 +70,21 @@ RULE = (
     "!(a op b), (a op b) op c over small atom sets; depth 2 thorough: x op y for all ordered pairs with one side in A0+!A0+R and "
     "the other in A0+!A0+key relations+{MIR_B, MIR_I<3} (A0 without M on this side), !(x) for every depth-1 x. Each E x 3 program groups x targets {chipa,chipb} x all "
     "assignments of the user-settable options that E (transitively) mentions (bool {n,y}, N {1,2,3,4}, S {v1,chipa,chipb,zz}; <=64). "
+    "special menu names (both tiers): names = string-list constants EXCLUDE*/SKIP*/IGNORE*/HIDDEN* of gen_kconfig_doc + the 2 documented "
+    "ESP-IDF wrapper names + near-miss control names (1 in quick, 3 in thorough); full product names x 10 positions x 4 carriers x 9 "
+    "contents x 5 sibling layouts, plus names x 10 positions x 5 non-menu items carrying the name as prompt x 2 sibling layouts; "
+    "user-settable options of these trees (U1, enclosing / inner menuconfig, X_A) fully enumerated. "
     "evaluations = doc generations + assignment evaluations. distinct_nontrivial = distinct (program, target, set of documented "
-    "anchors, recorded condition triples) in which at least one condition was changed by the simplifier or an option was omitted."
+    "anchors, recorded condition triples) in which at least one condition was changed by the simplifier or an option was omitted, "
+    "or which belong to the special-menu-name family."
 )
 ASSUMPTIONS = [
     "user-settable options that no expression mentions (the probes themselves) are left at their defaults: an under-approximation "
     "of the reachable configurations, so every alarm of (a) has a concrete witness assignment",
     "'option' = symbol or choice with a prompt; menus are not options ((c) still covers their anchors)",
+    "a menu the generator excludes by name may stay without a section (the property speaks of options); its options must be "
+    "documented and nothing may link to the missing section. A menuconfig symbol / choice whose PROMPT equals such a name is an option",
+    "special names containing a double quote or a newline cannot be written as a Kconfig prompt by the renderer and are not generated",
     "(b) is checked modulo the stripped direct dependencies, as the generator prints them once under 'Symbol can be set when'",
     "ordering relations (<,<=,>,>=) are generated only for numeric operand pairs (and one string pair in thorough)",
     "mirror symbols take a plain symbol, its negation or one conjunction as default value, with no or a target-constant condition; "
@@ -134,6 +158,11 @@ DOMAIN = {
     "MIR_PG": ["n", "y"],
     "N": ["1", "2", "3", "4"],
     "S": ["v1", "chipa", "chipb", "zz"],
+    # user-settable options of the special-menu-name family (see special_programs)
+    "W_MC": ["n", "y"],
+    "X_MC": ["n", "y"],
+    "X_A": ["n", "y"],
+    "K_MC": ["n", "y"],
 }
 
 
@@ -525,10 +554,195 @@ def fixed_programs() -> List[Tuple[str, Program, List[str], List[str]]]:
     return out
 
 
+# --------------------------------------------------------------------------------------------------
+# the special menu names (menus the generator never writes a section for) at every structural position
+# --------------------------------------------------------------------------------------------------
+
+# the wrappers the ESP-IDF build system generates for components outside the build (always explored, whatever the constant says)
+DOCUMENTED_SPECIAL_NAMES = (
+    "Configuration for components not included in the build",
+    "Project configuration for components not included in the build",
+)
+SPECIAL_WRAPS = ("top", "menu", "menu2", "menuconfig", "if_in_menu", "gated_menu", "visif_menu", "in_other_special", "in_same_special", "in_top_special")
+SPECIAL_CARRIERS = ("menu", "menu_dep_target", "menu_dep_user", "menu_visif_user")
+SPECIAL_CONTENTS = ("empty", "opt", "linked", "sub", "sub2", "choice", "menuconfig", "nested_other", "gated")
+SPECIAL_SIBLINGS = ("none", "before", "after", "both", "other_special")
+SPECIAL_KINDS = ("menuconfig", "config", "int_config", "choice", "comment")
+
+
+def special_names() -> Tuple[List[str], List[str]]:
+    """(names the generator excludes, near-miss names that are ordinary menus).  The excluded names are read from every
+    upper-case list/tuple/set-of-strings constant of gen_kconfig_doc whose name says EXCLUDE / SKIP / IGNORE / HIDDEN."""
+    gd, _ = mods()
+    names: List[str] = []
+    for attr in sorted(vars(gd)):
+        if not attr.isupper() or not re.search(r"EXCLUDE|SKIP|IGNORE|HIDDEN", attr):
+            continue
+        v = getattr(gd, attr)
+        if isinstance(v, (list, tuple, set, frozenset)) and v and all(isinstance(x, str) for x in v):
+            for x in v if isinstance(v, (list, tuple)) else sorted(v):
+                if x not in names and '"' not in x and "\n" not in x:
+                    names.append(x)
+    for x in DOCUMENTED_SPECIAL_NAMES:
+        if x not in names:
+            names.append(x)
+    near = [names[0].lower(), names[0] + " (old)", names[0].split(" for ")[0] + " for components"]
+    return names, [n for n in near if n not in names]
+
+
+def _special_content(kind: str, other: str) -> Tuple[List[Any], List[Any], List[str], List[str]]:
+    """(children of the special menu, options defined OUTSIDE it, user-settable variables, rename lines)"""
+    xa = Cfg("X_A", "bool", prompt="option in the special menu", help="Help of X_A.")
+    xi = Cfg("X_I", "int", prompt="dependent option in the special menu", depends=[S("X_A")], defaults=[(L("3"), None)])
+    xb = Cfg("X_B", "bool", prompt="second option in the special menu")
+    ren = ["CONFIG_OLD_X_A CONFIG_X_A"]
+    if kind == "empty":
+        return [], [], [], []
+    if kind == "opt":
+        return [xa, xi], [], ["X_A"], ren + ["CONFIG_OLD_X_I CONFIG_X_I"]
+    if kind == "linked":
+        inside = [
+            Cfg("X_A", "bool", prompt="option in the special menu", selects=[("OUT_T", None)], help="Help of X_A."),
+            Cfg("X_B", "bool", prompt="selected from outside"),
+            Cfg("X_D", "bool", prompt="default value is an outside option", defaults=[(S("OUT_T"), None)]),
+            Cfg("X_N", "int", prompt="set from outside", defaults=[(L("1"), None)]),
+        ]
+        outside = [
+            Cfg("OUT_T", "bool", prompt="selected from inside the special menu"),
+            Cfg("OUT_S", "bool", prompt="selects into the special menu", selects=[("X_B", None)], sets=[("X_N", L("5"), S("X_A"))]),
+            Cfg("OUT_V", "bool", prompt="default value is an inside option", defaults=[(S("X_A"), None), (S("X_B"), S("X_D"))]),
+        ]
+        return inside, outside, ["X_A"], ren + ["CONFIG_OLD_X_B !CONFIG_X_B"]
+    if kind == "sub":
+        return [Menu(title="Unused component", children=[xa, xi])], [], ["X_A"], ren
+    if kind == "sub2":
+        return [Menu(title="Sub", children=[Menu(title="Deeper: a/b & c", children=[xa]), xb]), Cfg("X_C", "hex", prompt="after the sub menu", defaults=[(L("0x10"), None)])], [], [], ren
+    if kind == "choice":
+        ch = Choice(name="X_CH", prompt="choice in the special menu", defaults=[("X_CH_A", None)],
+                    children=[Cfg("X_CH_A", "bool", prompt="a", help="Help of a."), Cfg("X_CH_B", "bool", prompt="b")])
+        return [ch, Cfg("X_R", "bool", prompt="refers to a member", defaults=[(L("y"), S("X_CH_B"))])], [], [], ["CONFIG_OLD_X_CH_A CONFIG_X_CH_A"]
+    if kind == "menuconfig":
+        return [Cfg("X_MC", "bool", prompt="menuconfig in the special menu", menuconfig=True), If(cond=S("X_MC"), children=[Cfg("X_MC_C", "bool", prompt="child of the menuconfig")])], [], ["X_MC"], ["CONFIG_OLD_X_MC CONFIG_X_MC"]
+    if kind == "nested_other":
+        return [Menu(title=other, children=[xa, Menu(title="Below both", children=[xb])]), Cfg("X_C", "bool", prompt="next to the nested special menu")], [], [], ren
+    if kind == "gated":
+        return [
+            Cfg("X_G", "bool", prompt="chipb only", depends=[S("IDF_TARGET_CHIPB")]),
+            Cfg("X_UG", "bool", prompt="gated by a user option", depends=[S("U1")]),
+            Cfg("X_PC", "bool", prompt="prompt on chipa only", prompt_cond=S("IDF_TARGET_CHIPA")),
+        ], [], [], ["CONFIG_OLD_X_G CONFIG_X_G"]
+    raise ValueError(kind)
+
+
+def _special_siblings(kind: str, other: str) -> Tuple[List[Any], List[Any]]:
+    before = [Menu(title="Driver", children=[Cfg("SIB_A", "bool", prompt="sibling: in the menu before", defaults=[(L("y"), None)])])]
+    after = [Cfg("SIB_O", "bool", prompt="sibling: option after"), Menu(title="Zeta services", children=[Cfg("SIB_Z", "int", prompt="sibling: in the menu after", defaults=[(L("1"), None)])])]
+    if kind == "none":
+        return [], []
+    if kind == "before":
+        return before, []
+    if kind == "after":
+        return [], after
+    if kind == "both":
+        return before, after
+    if kind == "other_special":
+        return before, [Menu(title=other, children=[Cfg("SIB_X", "bool", prompt="sibling: in the other special menu")])]
+    raise ValueError(kind)
+
+
+def _special_carrier(kind: str, name: str, children: List[Any]) -> List[Any]:
+    if kind == "menu":
+        return [Menu(title=name, children=children)]
+    if kind == "menu_dep_target":
+        return [Menu(title=name, depends=[S("IDF_TARGET_CHIPA")], children=children)]
+    if kind == "menu_dep_user":
+        return [Menu(title=name, depends=[S("U1")], children=children)]
+    if kind == "menu_visif_user":
+        return [Menu(title=name, visible_if=[S("U1")], children=children)]
+    raise ValueError(kind)
+
+
+def _special_kind(kind: str, name: str) -> Tuple[List[Any], List[str]]:
+    """The special name as the prompt of something that is NOT a plain menu."""
+    if kind == "menuconfig":
+        return [Cfg("K_MC", "bool", prompt=name, menuconfig=True), If(cond=S("K_MC"), children=[Cfg("K_MC_C", "bool", prompt="child of the specially named menuconfig")])], ["K_MC"]
+    if kind == "config":
+        return [Cfg("K_C", "bool", prompt=name, help="Help of K_C.")], []
+    if kind == "int_config":
+        return [Cfg("K_I", "int", prompt=name, defaults=[(L("2"), None)]), Cfg("K_ID", "bool", prompt="depends on the specially named option", depends=[Rel(">", S("K_I"), L("0"))])], []
+    if kind == "choice":
+        return [Choice(name="K_CH", prompt=name, defaults=[("K_CH_A", None)], children=[Cfg("K_CH_A", "bool", prompt="a"), Cfg("K_CH_B", "bool", prompt="b")])], []
+    if kind == "comment":
+        return [kgen.Comment(text=name), Cfg("K_AFTER", "bool", prompt="after the specially named comment")], []
+    raise ValueError(kind)
+
+
+def _special_wrap(wrap: str, payload: List[Any], name: str, other: str) -> Tuple[List[Any], List[str]]:
+    if wrap == "top":
+        return payload, []
+    if wrap == "menu":
+        return [Menu(title="Component config", children=payload)], []
+    if wrap == "menu2":
+        return [Menu(title="Outer", children=[Cfg("W_O", "bool", prompt="option of the outer menu"), Menu(title="Middle: x/y", children=payload)])], []
+    if wrap == "menuconfig":
+        return [Cfg("W_MC", "bool", prompt="enclosing menuconfig", defaults=[(L("y"), None)], menuconfig=True), If(cond=S("W_MC"), children=payload)], ["W_MC"]
+    if wrap == "if_in_menu":
+        return [Menu(title="Component config", children=[If(cond=S("U1"), children=payload)])], []
+    if wrap == "gated_menu":
+        return [Menu(title="Only chip B", depends=[S("IDF_TARGET_CHIPB")], children=payload)], []
+    if wrap == "visif_menu":
+        return [Menu(title="Shown with the capability", visible_if=[S("SOC_CAP")], children=payload)], []
+    if wrap == "in_other_special":
+        return [Menu(title="Component config", children=[Menu(title=other, children=payload)])], []
+    if wrap == "in_same_special":
+        return [Menu(title="Component config", children=[Menu(title=name, children=payload)])], []
+    if wrap == "in_top_special":
+        return [Menu(title=other, children=payload)], []
+    raise ValueError(wrap)
+
+
+def special_programs(tier: str) -> List[Tuple[str, str, Program, List[str], List[str]]]:
+    """(group, description, program, variables, renames): the full product of the dimensions below (both tiers; thorough adds
+    the remaining near-miss names)."""
+    names, near = special_names()
+    if tier != "thorough":
+        near = near[:1]
+    base_names = closure(["U1", "SOC_CAP"])
+    out = []
+    all_names = [(n, True) for n in names] + [(n, False) for n in near]
+    for idx, (name, is_special) in enumerate(all_names):
+        other = names[(idx + 1) % len(names)] if is_special and len(names) > 1 else names[0]
+        tag = f"{'special' if is_special else 'near'}{idx}"
+        for wrap in SPECIAL_WRAPS:
+            if wrap == "in_same_special" and not is_special:
+                continue
+            for sib in SPECIAL_SIBLINGS:
+                for carrier in SPECIAL_CARRIERS:
+                    for content in SPECIAL_CONTENTS:
+                        inside, outside, v1, ren = _special_content(content, other)
+                        before, after = _special_siblings(sib, other)
+                        tree, v2 = _special_wrap(wrap, before + _special_carrier(carrier, name, inside) + after, name, other)
+                        base = [base_cfg(n, base_names) for n in base_names]
+                        variables = ["U1"] + v2 + [v for v in v1 if v not in v2]
+                        out.append(("special_menu", f"name={tag} wrap={wrap} carrier={carrier} content={content} siblings={sib}",
+                                    Program(title="Main menu", children=base + outside + tree), variables, ren))
+                if sib in ("none", "both"):
+                    for kind in SPECIAL_KINDS:
+                        nodes, v1 = _special_kind(kind, name)
+                        before, after = _special_siblings(sib, other)
+                        tree, v2 = _special_wrap(wrap, before + nodes + after, name, other)
+                        base = [base_cfg(n, base_names) for n in base_names]
+                        out.append(("special_prompt", f"name={tag} wrap={wrap} kind={kind} siblings={sib}",
+                                    Program(title="Main menu", children=base + tree), ["U1"] + v2 + v1, []))
+    return out
+
+
 def items(tier: str, seed: int):
     out = []
     for name, prog, variables, renames in fixed_programs():
         out.append({"group": name, "estr": "-", "files": kgen.render(prog), "vars": variables, "renames": renames})
+    for group, desc, prog, variables, renames in special_programs(tier):
+        out.append({"group": group, "estr": desc, "files": kgen.render(prog), "vars": variables, "renames": renames})
     for E in expressions(tier):
         for g in GROUPS:
             prog, variables, renames = build_program(g, E)
@@ -646,6 +860,25 @@ def anchors_and_refs(text: str) -> Tuple[List[str], List[str]]:
         m = re.match(r"^.*<([^<>]+)>\s*$", body, re.S)
         refs.append(m.group(1) if m else body)
     return anchors, refs
+
+
+def special_prompt_kind(k, name: str) -> str:
+    """'' unless the option `name` (or the choice it is a member of) carries the name of an excluded MENU as its prompt:
+    then 'menuconfig' / 'config' / 'choice' / 'choice_of_member'."""
+    gd, _ = mods()
+    kl = impl.core()
+    obj = k.syms.get(name)
+    if obj is None or not obj.nodes:
+        obj = k.named_choices.get(name)
+    if obj is None:
+        return ""
+    for node in obj.nodes:
+        if node.prompt and node.prompt[0] in gd.EXCLUDED_MENU_NAMES:
+            return "choice" if isinstance(obj, kl.Choice) else "menuconfig" if node.is_menuconfig else "config"
+    ch = getattr(obj, "choice", None)
+    if ch is not None and any(nd.prompt and nd.prompt[0] in gd.EXCLUDED_MENU_NAMES for nd in ch.nodes):
+        return "choice_of_member"
+    return ""
 
 
 def transplant(expr, k2):
@@ -801,9 +1034,12 @@ def check_target(item: dict, target: str, r: common.Result) -> None:
             excluded = any(re.sub(r"[^a-zA-z0-9]+", "-", t).lower() in ref for t in gd.EXCLUDED_MENU_NAMES)
             line = next((ln.strip() for ln in gen.text.splitlines() if f"`{ref}`" in ln or f"<{ref}>" in ln), "")
             ctx = "found_in" if "Found in" in line else "contains" if line.startswith("- :ref:") else "deprecated" if line.startswith("- CONFIG_") else "condition_or_value"
+            sig = {"kind": "dangling_ref", "site": "gen_kconfig_doc.py:write_menu_item" if ctx != "deprecated" else "core.py:append_deprecated_doc",
+                   "target_is": what, "context": ctx, "excluded_menu": excluded}
+            if what == "option" and special_prompt_kind(k, ref[len("CONFIG_"):]):
+                sig["target_prompt_is_excluded_menu_name"] = special_prompt_kind(k, ref[len("CONFIG_"):])
             r.violation(
-                {"kind": "dangling_ref", "site": "gen_kconfig_doc.py:write_menu_item" if ctx != "deprecated" else "core.py:append_deprecated_doc",
-                 "target_is": what, "context": ctx, "excluded_menu": excluded},
+                sig,
                 f"[{group}, {target}] E = `{estr}`: :ref:`{ref}` has no `.. _{ref}:` in the generated text (line: {line!r})",
                 case,
             )
@@ -884,7 +1120,12 @@ def check_target(item: dict, target: str, r: common.Result) -> None:
             if culprit:
                 break
         where = "member" if (kind == "sym" and obj.choice is not None) else kind
-        if culprit:
+        named = special_prompt_kind(k, n)
+        if named:
+            culprit = None
+            sig = {"kind": "undocumented", "site": "gen_kconfig_doc.py:write_menu_item", "item": where, "prompt_is_excluded_menu_name": named}
+            why = "; its section is skipped because the prompt of this (or the enclosing choice's) option equals an excluded MENU name"
+        elif culprit:
             sig = {"kind": "undocumented", "site": "gen_kconfig_doc.py:_minimize_expr", "op": culprit["op"], "operands": culprit["operands"], "folded_to": culprit["folded_to"]}
             why = f"; the generator folds {culprit['text']} (differs for {culprit['assign']}{', reached through a ' + culprit['via'] if 'via' in culprit else ''})"
         else:
@@ -926,7 +1167,7 @@ def check_target(item: dict, target: str, r: common.Result) -> None:
             dict(case, assign=a, where=where),
         )
 
-    if changed or undocumented:
+    if changed or undocumented or group.startswith("special_"):
         r.outcome((item["files"]["Kconfig"], target, tuple(sorted(aset)), tuple((describe(c), "-" if d is None else describe(d), "-" if s is None else describe(s)) for c, d, s, _w in gen.records)))
     if r.sample is None:
         r.sample = {"group": group, "target": target, "expr": estr, "program": item["files"]["Kconfig"], "rst_head": gen.text[:1500], "assignments": len(assigns), "conditions_recorded": len(gen.records)}
